@@ -252,7 +252,11 @@ func rootsRun(in *rootsInput, ni int, f *vp.Family, lim int, junk []byte, absKey
 					continue
 				}
 				// transplant to every other retained root: accepted there only if the design accepts it there
+				// (plain encoding in the no-cache replay, compressed in the other one: the verifiers do not depend on the cache)
 				for rj := 1; rj <= len(roots); rj++ {
+					if comp != (lim <= 256) {
+						break
+					}
 					if rj == ri || nd.St[rj-1] == "x" || bytes.Equal(roots[rj-1], roots[ri-1]) {
 						continue
 					}
